@@ -56,6 +56,9 @@ structure Cfg where
   clock : Nat := 0
   ws : List Wr := []
   gc : GcPc := .idle
+  /-- answers of the collector's re-read of commit points, per key — consulted only when the source
+  re-reads once per key instead of once per candidate (`Gen.SidecarOrder.gcRecheckPerCandidate`) -/
+  gcMemo : List (Path × Option PayloadRef) := []
   deriving Repr
 
 inductive WAct where
@@ -145,6 +148,31 @@ def wrStep (c : Cfg) (t : Wr) : WAct → Option (Cfg × Wr)
       if t.committed || t.aborted then none
       else some ({ c with locks := if t.entered then c.locks.erase t.k else c.locks }, { t with aborted := true })
 
+def keyOfPath : BPath → Path
+  | .mt k => k
+  | .gen k _ => k
+  | .data k => k
+
+/-- does a (possibly remembered) reading of the key's commit point reference the payload `p`? -/
+def refMatches (r : Option PayloadRef) (p : BPath) : Bool :=
+  match p, r with
+  | .mt _, _ => true
+  | _, none => false
+  | _, some .unknown => true
+  | .gen _ g, some (.gen g') => decide (g' = g)
+  | .gen _ _, some .legacy => false
+  | .data _, some .legacy => true
+  | .data _, some (.gen _) => false
+
+/-- the collector's re-read of the commit point for candidate `p`: a fresh backend read per
+candidate, or (if the source memoises per key) the first answer for that key reused -/
+def gcRecheck (c : Cfg) (p : BPath) : Bool × List (Path × Option PayloadRef) :=
+  if Gen.SidecarOrder.gcRecheckPerCandidate then (isReferenced c.be p, c.gcMemo)
+  else
+    match aget c.gcMemo (keyOfPath p) with
+    | some r => (refMatches r p, c.gcMemo)
+    | none => let r := markRef c.be (keyOfPath p); (refMatches r p, aset c.gcMemo (keyOfPath p) r)
+
 /-- the collector's next check on candidate `p` (the check at position `stage` of the generated order) -/
 def gcCheck (c : Cfg) (p : BPath) (stage : Nat) (rest : List BPath) : Cfg :=
   match Gen.SidecarOrder.gcCandidateOrder[stage]? with
@@ -152,7 +180,8 @@ def gcCheck (c : Cfg) (p : BPath) (stage : Nat) (rest : List BPath) : Cfg :=
   | some .inFlight =>
       if isInFlight c.inflight p then { c with gc := .sweeping rest } else { c with gc := .cand p (stage + 1) rest }
   | some .recheck =>
-      if isReferenced c.be p then { c with gc := .sweeping rest } else { c with gc := .cand p (stage + 1) rest }
+      let r := gcRecheck c p
+      if r.1 then { c with gc := .sweeping rest, gcMemo := r.2 } else { c with gc := .cand p (stage + 1) rest, gcMemo := r.2 }
   | some .delete => { c with be := adel c.be p, gc := .sweeping rest }
 
 def step (c : Cfg) : Choice → Cfg
@@ -164,11 +193,14 @@ def step (c : Cfg) : Choice → Cfg
           | none => c
           | some (c', t') => { c' with ws := c'.ws.set i t' }
   | .gcList cands =>
-      match c.gc with
-      | .cand _ _ _ => c
-      | _ =>
-          -- what a listing can return: payload objects that are on the backend now
-          if cands.all (fun p => isPayloadPath p && (aget c.be p).isSome) then { c with gc := .sweeping cands } else c
+      -- what a listing can return: payload objects that are on the backend now; the sweep makes
+      -- two listings (`gen/`, then `data/`), the second appends
+      if cands.all (fun p => isPayloadPath p && (aget c.be p).isSome) then
+        match c.gc with
+        | .cand _ _ _ => c
+        | .idle => { c with gc := .sweeping cands, gcMemo := [] }
+        | .sweeping cs => { c with gc := .sweeping (cs ++ cands) }
+      else c
   | .gcStep =>
       match c.gc with
       | .idle => c
